@@ -145,6 +145,33 @@ def climb_cases():
     return [(d, plist) for d in docs]
 
 
+def anchored_child_cases():
+    """has_child(&anchor) over Arrays-of-Hashes with null elements before,
+    between and after the hashes (the keyword has a code path of its own for
+    each container kind), plain and inverted, alone and followed by a key."""
+    rec_a = ("m", (("a", ("&", "A", "x")), ("n", 1000)))
+    rec_b = ("m", (("b", ("*", "A")), ("n", "a")))
+    rec_c = ("m", (("c", 1000), ("n", "b")))
+    lists = [
+        ("l", (None, rec_a, None, rec_b, rec_c)),
+        ("l", (rec_a, None, rec_b, None)),
+        ("l", (None, None, rec_c, rec_a)),
+        ("l", (rec_a, rec_b, rec_c)),
+    ]
+    out = []
+    for lst in lists:
+        for spec, head in ((lst, ()), (("m", (("l", lst), ("z", 1))),
+                                       (("key", "l"),))):
+            plist = []
+            for inv in (False, True):
+                kw = ("kw", "has_child", ("&A",), inv)
+                plist.append(rp(head + (kw,)))
+                plist.append(rp(head + (kw, ("key", "n"))))
+                plist.append(rp(head + (kw, ("kw", "parent", (), False))))
+            out.append((spec, plist))
+    return out
+
+
 def plan(tier):
     global CASES
     voc = paths.vocab("c01-quick")
@@ -164,6 +191,7 @@ def plan(tier):
         CASES.append((spec, p1 + p2))
     CASES += punct_cases()
     CASES += climb_cases()
+    CASES += anchored_child_cases()
     bounds = {"documents": len(CASES),
               "queries": sum(len(p) for _, p in CASES),
               "two_segment_paths_on_documents_up_to_nodes": small,
